@@ -125,7 +125,7 @@ def go_sequence(rng):
 
 
 def run(ctx):
-    ctx.regen(["scantok"])
+    ctx.regen(["scantok", "scanconst"])
     sc.gen_notes(ctx)
     ctx.prove("C16")
     R = sc.Runner(ctx)
